@@ -48,7 +48,11 @@ import (
 	csnappy "github.com/segmentio/kafka-go/compress/snappy"
 	vxerial "github.com/segmentio/kafka-go/compress/snappy/go-xerial-snappy"
 	czstd "github.com/segmentio/kafka-go/compress/zstd"
+	dgzip "github.com/segmentio/kafka-go/gzip"
+	dlz4 "github.com/segmentio/kafka-go/lz4"
 	"github.com/segmentio/kafka-go/protocol"
+	dsnappy "github.com/segmentio/kafka-go/snappy"
+	dzstd "github.com/segmentio/kafka-go/zstd"
 	"kverif/kvfmt"
 )
 
@@ -1017,6 +1021,10 @@ func genXR(r *rand.Rand, big bool) {
 					buf[j] = 0xAA
 				}
 				n, err := rc.Read(buf[:k])
+				if n > k && refOK == "ok" {
+					// io.Reader: 0 <= n <= len(p); the caller's memory beyond len(p) is not the reader's
+					refOK = fmt.Sprintf("FAIL:stream%d:Read-returned-%d-bytes-for-a-buffer-of-%d", si, n, k)
+				}
 				if err != nil {
 					final = err
 					complete = true
@@ -1099,16 +1107,42 @@ var refCodecs = []refCodec{
 		codec:  func() compress.Codec { return &cgzip.Codec{} },
 		shared: &compress.GzipCodec,
 		enc: func(r *rand.Rand, payload []byte, split []int) ([]byte, error) {
+			// RFC 1952 2.2: a gzip file is a series of members; every decoder yields
+			// the concatenation.  Members get optional header fields.
 			var b bytes.Buffer
-			w := stdgzip.NewWriter(&b)
-			if err := writeSplit(w, payload, split); err != nil {
-				return nil, err
+			var w *stdgzip.Writer
+			for _, g := range groups(payload, split, genMembers(r)) {
+				if w == nil || r.Intn(2) == 0 {
+					lvl := []int{stdgzip.DefaultCompression, stdgzip.NoCompression, stdgzip.BestSpeed, stdgzip.BestCompression, stdgzip.HuffmanOnly}[r.Intn(5)]
+					w, _ = stdgzip.NewWriterLevel(&b, lvl)
+				} else {
+					w.Reset(&b) // closed and reset onto the same destination
+				}
+				if r.Intn(2) == 0 {
+					w.Name = "member.bin"
+				}
+				if r.Intn(2) == 0 {
+					w.Comment = "a comment"
+				}
+				if r.Intn(2) == 0 {
+					w.Extra = []byte{'k', 'v', 3, 0, 1, 2, 3}
+				}
+				if r.Intn(2) == 0 {
+					w.ModTime = time.Unix(1700000000, 0)
+				}
+				for _, p := range g {
+					if _, err := w.Write(p); err != nil {
+						return nil, err
+					}
+				}
+				if r.Intn(3) == 0 {
+					w.Flush()
+				}
+				if err := w.Close(); err != nil {
+					return nil, err
+				}
 			}
-			if r.Intn(3) == 0 {
-				w.Flush()
-			}
-			err := w.Close()
-			return b.Bytes(), err
+			return b.Bytes(), nil
 		},
 		dec: func(data []byte) ([]byte, error) {
 			z, err := stdgzip.NewReader(bytes.NewReader(data))
@@ -1156,13 +1190,38 @@ var refCodecs = []refCodec{
 		codec:  func() compress.Codec { return &clz4.Codec{} },
 		shared: &compress.Lz4Codec,
 		enc: func(r *rand.Rand, payload []byte, split []int) ([]byte, error) {
+			// frame options in their legal variety.  One frame only: pierrec/lz4 v4.1.15, the
+			// reference library, itself stops after the first of several concatenated frames
+			// (used directly as well as through the codec), so there is no oracle for them.
 			var b bytes.Buffer
-			w := plz4.NewWriter(&b)
-			if err := writeSplit(w, payload, split); err != nil {
-				return nil, err
+			for _, g := range groups(payload, split, 1) {
+				size := 0
+				for _, p := range g {
+					size += len(p)
+				}
+				w := plz4.NewWriter(&b)
+				opts := []plz4.Option{
+					plz4.ChecksumOption(r.Intn(2) == 0),
+					plz4.BlockChecksumOption(r.Intn(2) == 0),
+					plz4.BlockSizeOption([]plz4.BlockSize{plz4.Block64Kb, plz4.Block256Kb, plz4.Block1Mb, plz4.Block4Mb}[r.Intn(4)]),
+					plz4.CompressionLevelOption([]plz4.CompressionLevel{plz4.Fast, plz4.Level1, plz4.Level5, plz4.Level9}[r.Intn(4)]),
+				}
+				if r.Intn(2) == 0 {
+					opts = append(opts, plz4.SizeOption(uint64(size)))
+				}
+				if err := w.Apply(opts...); err != nil {
+					return nil, err
+				}
+				for _, p := range g {
+					if _, err := w.Write(p); err != nil {
+						return nil, err
+					}
+				}
+				if err := w.Close(); err != nil {
+					return nil, err
+				}
 			}
-			err := w.Close()
-			return b.Bytes(), err
+			return b.Bytes(), nil
 		},
 		dec: func(data []byte) ([]byte, error) { return io.ReadAll(plz4.NewReader(bytes.NewReader(data))) },
 	},
@@ -1171,16 +1230,40 @@ var refCodecs = []refCodec{
 		codec:  func() compress.Codec { return &czstd.Codec{} },
 		shared: &compress.ZstdCodec,
 		enc: func(r *rand.Rand, payload []byte, split []int) ([]byte, error) {
+			// several frames back to back, skippable frames in between, frame options
 			var b bytes.Buffer
-			w, err := kzstd.NewWriter(&b, kzstd.WithEncoderConcurrency(1))
-			if err != nil {
-				return nil, err
+			skippable := func() {
+				if r.Intn(4) == 0 {
+					junk := make([]byte, r.Intn(40))
+					r.Read(junk)
+					var h [8]byte
+					binary.LittleEndian.PutUint32(h[:4], 0x184D2A50+uint32(r.Intn(16)))
+					binary.LittleEndian.PutUint32(h[4:], uint32(len(junk)))
+					b.Write(h[:])
+					b.Write(junk)
+				}
 			}
-			if err := writeSplit(w, payload, split); err != nil {
-				return nil, err
+			for _, g := range groups(payload, split, genMembers(r)%5) {
+				skippable()
+				w, err := kzstd.NewWriter(&b, kzstd.WithEncoderConcurrency(1),
+					kzstd.WithEncoderCRC(r.Intn(2) == 0),
+					kzstd.WithZeroFrames(true),
+					kzstd.WithEncoderLevel(kzstd.EncoderLevel(1+r.Intn(4))),
+					kzstd.WithWindowSize(1<<uint(10+r.Intn(13))))
+				if err != nil {
+					return nil, err
+				}
+				for _, p := range g {
+					if _, err := w.Write(p); err != nil {
+						return nil, err
+					}
+				}
+				if err := w.Close(); err != nil {
+					return nil, err
+				}
 			}
-			err = w.Close()
-			return b.Bytes(), err
+			skippable()
+			return b.Bytes(), nil
 		},
 		dec: func(data []byte) ([]byte, error) {
 			z, err := kzstd.NewReader(bytes.NewReader(data), kzstd.WithDecoderConcurrency(1))
@@ -1213,6 +1296,97 @@ func init() {
 			refCodecs = append(refCodecs, rc)
 		}
 	}
+	// codec OPTIONS are part of the generated space: every level a codec accepts, built
+	// through the codec struct and through the deprecated constructors of /repo/{gzip,lz4,
+	// snappy,zstd}.  (gzip: Level 0 means "default" for the codec struct; valid levels are
+	// -3 stateless, -2 Huffman only, -1 default, 1..9.)
+	for i, lvl := range []int{-3, -2, -1, 1, 6, 9} {
+		lvl := lvl
+		rc := refCodecs[0]
+		rc.name = fmt.Sprintf("gzip-level%d", lvl)
+		if i%2 == 0 {
+			rc.name += "-ctor"
+			rc.codec = func() compress.Codec { return dgzip.NewCompressionCodecLevel(lvl) }
+		} else {
+			rc.codec = func() compress.Codec { return &cgzip.Codec{Level: lvl} }
+		}
+		rc.shared = rc.codec()
+		refCodecs = append(refCodecs, rc)
+	}
+	for i, lvl := range []int{-5, -1, 0, 1, 2, 3, 4, 5, 9, 12, 19, 22, 23} {
+		lvl := lvl
+		rc := refCodecs[4]
+		rc.name = fmt.Sprintf("zstd-level%d", lvl)
+		if i%2 == 0 {
+			rc.name += "-ctor"
+			rc.codec = func() compress.Codec { return dzstd.NewCompressionCodecWith(lvl) }
+		} else {
+			rc.codec = func() compress.Codec { return &czstd.Codec{Level: lvl} }
+		}
+		rc.shared = rc.codec()
+		refCodecs = append(refCodecs, rc)
+	}
+	{
+		rc := refCodecs[0]
+		rc.name = "gzip-default-ctor"
+		rc.codec = func() compress.Codec { return dgzip.NewCompressionCodec() }
+		rc.shared = rc.codec()
+		refCodecs = append(refCodecs, rc)
+		rc = refCodecs[4]
+		rc.name = "zstd-default-ctor"
+		rc.codec = func() compress.Codec { return dzstd.NewCompressionCodec() }
+		rc.shared = rc.codec()
+		refCodecs = append(refCodecs, rc)
+		rc = refCodecs[3]
+		rc.name = "lz4-ctor"
+		rc.codec = func() compress.Codec { return dlz4.NewCompressionCodec() }
+		rc.shared = rc.codec()
+		refCodecs = append(refCodecs, rc)
+		rc = refCodecs[1]
+		rc.name = "snappy-ctor"
+		rc.codec = func() compress.Codec { return dsnappy.NewCompressionCodec() }
+		rc.shared = rc.codec()
+		refCodecs = append(refCodecs, rc)
+		rc = refCodecs[2]
+		rc.name = "snappy-unframed-ctor"
+		rc.codec = func() compress.Codec { return dsnappy.NewCompressionCodecFraming(dsnappy.Unframed) }
+		rc.shared = rc.codec()
+		refCodecs = append(refCodecs, rc)
+	}
+}
+
+// groups cuts the split of a payload into m consecutive groups (members / frames)
+func groups(payload []byte, split []int, m int) [][][]byte {
+	var pieces [][]byte
+	pos := 0
+	for _, n := range split {
+		pieces = append(pieces, payload[pos:pos+n])
+		pos += n
+	}
+	if m > len(pieces) {
+		m = len(pieces)
+	}
+	if m < 1 {
+		m = 1
+	}
+	out := make([][][]byte, m)
+	for i, p := range pieces {
+		g := i * m / len(pieces)
+		out[g] = append(out[g], p)
+	}
+	return out
+}
+
+func genMembers(r *rand.Rand) int {
+	switch r.Intn(6) {
+	case 0:
+		return 2
+	case 1:
+		return 4
+	case 2:
+		return 1000 // as many as there are pieces
+	}
+	return 1
 }
 
 // writeMixed offers the payload through a mix of Write and io.Copy (ReadFrom where the
@@ -1351,6 +1525,9 @@ func roundTrip(r *rand.Rand, rc refCodec, codec compress.Codec, payload []byte, 
 	comp2, err := rc.enc(r, payload, split)
 	if err != nil {
 		return "reference-encoder:" + err.Error()
+	}
+	if d, err := rc.dec(comp2); err != nil || !bytes.Equal(d, payload) {
+		return fmt.Sprintf("HARNESS:reference-decoder-does-not-read-the-reference-stream(%v)", err)
 	}
 	rd = codec.NewReader(&chopReader{data: comp2, sizes: []int{1 + r.Intn(5000)}})
 	d, err = readMixed(r, rd, sizes)
@@ -1547,7 +1724,7 @@ func genConcTight(r *rand.Rand, rc refCodec, goroutines, rounds int) {
 				payload = append(payload, bytes.Repeat([]byte{byte('a' + g%26)}, 16+pr.Intn(1000))...)
 				var why string
 				switch {
-				case i%16 == 0:
+				case i%512 == 0:
 					why = roundTrip(pr, rc, codec, payload, []int{len(payload)}, []int{len(payload) + 16})
 				case i%16 < 4:
 					why = roundTripLight(pr, rc, codec, payload)
